@@ -89,9 +89,24 @@ Record wf_core (p : program) : Prop := {
                  nkind d = KNormal -> (rank d < rank n)%nat;
 }.
 
+(** Fuel is a model artefact (the code has none).  When the dirty propagation of a session
+    runs out of fuel the model answers [RFuel] and keeps the inputs WITHOUT the dirt, so
+    later answers can be stale; the statements therefore assume that no session before the
+    operation of interest answered [RFuel] ([C01_core_statement_unguarded_refuted] in
+    [Engine/CoreSound.v] shows the hypothesis is needed). *)
+Definition sessions_fuelled (fuel : nat) (p : program) (ops : list op) (i : nat) : Prop :=
+  forall k sets b rk, (k < i)%nat -> nth_error ops k = Some (OSession sets b) ->
+    nth_error (crun_history_f fuel p cinit ops) k = Some rk -> r_out rk <> RFuel.
+
 (** * C01 on the core fragment: every answer of the engine is the from-scratch value for the
     inputs committed so far, for every program, every history and every amount of fuel *)
 Definition C01_core_statement : Prop :=
+  forall fuel p ops i n r z, wf_core p -> sessions_fuelled fuel p ops i ->
+    nth_error ops i = Some (OQuery n) ->
+    nth_error (crun_history_f fuel p cinit ops) i = Some r ->
+    r_out r = RValue z ->
+    Spec p (inputs_after (firstn i ops)) n z.
+Definition C01_core_statement_unguarded : Prop :=
   forall fuel p ops i n r z, wf_core p ->
     nth_error ops i = Some (OQuery n) ->
     nth_error (crun_history_f fuel p cinit ops) i = Some r ->
@@ -117,7 +132,7 @@ Definition executed_at (rs : list opres) (j : nat) (m : node) : Prop :=
 (** justification: a node executed at operation [i] that had been executed before (last at
     [j]) read, at that time, some dependency whose from-scratch value is different now *)
 Definition C03_core_justified_statement : Prop :=
-  forall fuel p ops i j m, wf_core p ->
+  forall fuel p ops i j m, wf_core p -> sessions_fuelled fuel p ops i ->
     let rs := crun_history_f fuel p cinit ops in
     executed_at rs i m -> (j < i)%nat -> executed_at rs j m ->
     (forall k, (j < k < i)%nat -> ~ executed_at rs k m) ->
